@@ -466,7 +466,7 @@ def prop_c17dhcurves(da_name, db_name, ka, kb):
             if name.startswith("private key bytes"):
                 continue          # a wrong-length string is refused by the key loader with its own error
             return f"FAIL {name}: {type(ex).__name__} instead of InvalidCurveError"
-        if name.startswith("private key bytes") and int(ca.order).bit_length() == int(cb.order).bit_length():
+        if name.startswith("private key bytes") and len(ska.to_string()) == len(skb.to_string()):
             continue              # same byte length: the bytes are a legitimate key of the other curve
         return f"FAIL {name}: keys of {da_name} and {db_name} in one agreement give the secret {sec.hex()[:24]}... instead of InvalidCurveError"
     return "ok"
